@@ -6,7 +6,7 @@ def body(c):
     q = not c.thorough
     # design content: the machine/semantics model of C05 (same module); a reduced instance is model-checked here
     r = c.tlc_design("MC_BitMachine", "MC_BitMachine_c06.cfg", heap="16g", timeout=1800, workers=16)
-    runs = 250 if q else 8000
+    runs = 250 if q else 60000
     tpath = os.path.join(c.work, "trace.ndjson")
     c.vh(["c06", "record", runs, tpath], timeout=3000)
     evs = read_ndjson(tpath)
